@@ -158,11 +158,13 @@ func c03Perturb(r *rng, nodes []*cNode, kind string, authors []identity.Interfac
 		}
 	case "jump":
 		// a far jump on a non-merge commit; descendants are shifted so that only this edge is affected
+		// (of any size a 64-bit clock can hold: just over the limit, beyond 32 bits, beyond the sign bit)
 		if n := nonRoot(single); n != nil {
+			j := pickOne(r, []uint64{1_000_001, 1_000_001, 1 << 33, 1<<62 + 7, 1 << 63, 1<<63 + 999})
 			for m := range desc(n) {
-				m.pack.edit += 1_000_002
+				m.pack.edit += j + 1
 			}
-			n.pack.edit = pe(n) + 1_000_001
+			n.pack.edit = pe(n) + j
 		}
 	case "jump-merge":
 		if n := nonRoot(merge); n != nil {
